@@ -579,7 +579,11 @@ fn tag(asyncfl: bool, sync_tag: &'static str) -> &'static str {
     if !asyncfl {
         return sync_tag;
     }
+    // a fault of the async-lock flavour violates C16 and the rule of the default flavour it departs from
     match sync_tag {
+        "C01" => "C01|C16",
+        "C02" => "C02|C16",
+        "C03" => "C03|C16",
         "C19" => "C19|C16",
         _ => "C16",
     }
